@@ -117,6 +117,76 @@ func checkC12(c *Ctx) {
 				{"x-mod-n-equals-r", `^0 == Int\.Cmp\(local:Int<-Mod\(local:Int,g:order\),local:Int<-SetBytes\(local:Signature\.R`},
 			})
 		}
+		if fn := p.Func(pk, "", "HashToInt"); fn != nil {
+			// bits2int: the number of excess bits shifted out is computed from the length of the very
+			// bytes that are converted (after the truncation to the size of the order), not from the
+			// length of the digest before truncation
+			c.Instance("C12.guard", 1)
+			var conv, shiftLen []ssa.Value
+			for _, b := range fn.Blocks {
+				for _, in := range b.Instrs {
+					call, ok := in.(*ssa.Call)
+					if !ok || call.Call.IsInvoke() {
+						continue
+					}
+					cl := calleeOf(&call.Call)
+					if cl.Pkg != "math/big" {
+						continue
+					}
+					switch cl.Name {
+					case "SetBytes":
+						if len(call.Call.Args) == 2 {
+							conv = append(conv, stripConv(call.Call.Args[1]))
+						}
+					case "Rsh":
+						if len(call.Call.Args) == 3 {
+							// lengths in the backward slice of the shift amount
+							seen := map[ssa.Value]bool{}
+							var walk func(v ssa.Value, d int)
+							walk = func(v ssa.Value, d int) {
+								v = stripConv(v)
+								if v == nil || seen[v] || d > 8 {
+									return
+								}
+								seen[v] = true
+								if c2, ok := v.(*ssa.Call); ok {
+									if l := lenOf(c2); l != nil {
+										shiftLen = append(shiftLen, stripConv(l))
+										return
+									}
+								}
+								if bo, ok := v.(*ssa.BinOp); ok {
+									walk(bo.X, d+1)
+									walk(bo.Y, d+1)
+								}
+								if ph, ok := v.(*ssa.Phi); ok {
+									for _, e := range ph.Edges {
+										walk(e, d+1)
+									}
+								}
+							}
+							walk(call.Call.Args[2], 0)
+						}
+					}
+				}
+			}
+			ok, msg := true, ""
+			if len(conv) > 0 && len(shiftLen) > 0 {
+				for _, l := range shiftLen {
+					same := false
+					for _, cv := range conv {
+						if l == cv {
+							same = true
+						}
+					}
+					if !same {
+						ok = false
+						msg = funcKey(fn) + ": the shift that drops the excess bits is computed from len(" + descValue(l, 0) + ") while the bytes converted are " + descValue(conv[0], 0) + ": for digests longer than the order the excess is counted on the untruncated digest and too many bits are dropped"
+					}
+				}
+			}
+			c.Ob("C12.guard", pk, funcKey(fn), "excess-bits-from-converted-bytes", p.Pos(fn.Pos()), ok, msg)
+		}
 		if fn := p.Func(pk, "", "recoverP"); fn != nil {
 			RequireFacts(c, p, "C12.guard", fn, AcceptNilErr, nil, []Req{
 				{"sqrt-checked", `^Int\.ModSqrt\(.*\) != nil$`},
